@@ -340,6 +340,7 @@ structure Obs where
   failed : Nat → Bool                   -- daemon log: an unpin of c failed since c's last pin/unpin instruction
   calls : List CallObs                  -- live calls parked at the daemon
   pending : Nat                         -- Track calls that have not returned yet
+  lsDown : Bool := false                -- the daemon's reads (PinLsCid / PinLs) fail at this point (scripted fault)
 
 def alive (s : State) (k : Call) : Bool := !(s.ops k.op).cancelled
 
